@@ -1,4 +1,5 @@
-"""C05 - tagging conserves alignment records (every primary input record exactly once in the output)."""
+"""C05 - tagging conserves alignment records (every primary input record exactly once in the output);
+extension: what -contig / -skip_contig select in single-process, one-contig-per-process and binned runs (Model/C05x.v)."""
 import os, json, itertools, collections, time
 from concurrent.futures import ThreadPoolExecutor
 import fw
@@ -323,7 +324,7 @@ def lane_cases(rng, n):
 
 
 def spec_args(sp):
-    return run_args(sp['method'], sp['mode'], sp.get('threads'), sp['nr'], sp.get('fmt', 0))
+    return run_args(sp['method'], sp['mode'], sp.get('threads'), sp['nr'], sp.get('fmt', 0), sp.get('contig'), sp.get('skip'))
 
 
 def rec_rg(r, fmt=0):
@@ -368,17 +369,63 @@ def large_case(rng, nsites):
     return {'contigs': contigs, 'records': recs, 'name_form': 'tags', 'large': True, 'nomodel': True}
 
 
-def run_args(method, mode, threads=None, no_rejects=False, fmt=0):
+def run_args(method, mode, threads=None, no_rejects=False, fmt=0, contig=None, skip=None):
     a = ['-method', method]
     if fmt:
         a += ['-read_group_format', str(fmt)]
-    if mode == 'multi':
+    if mode in ('multi', 'binned'):
         a += ['--multiprocess']
         if threads:
             a += ['-tagthreads', str(threads)]
     if no_rejects:
         a += ['--no_rejects']
+    if contig is not None:
+        a += ['-contig', contig]
+    if skip:
+        a += ['-skip_contig', ','.join(skip)]
+    if mode == 'binned':
+        # not a tagger option: tells tools/impl_c05.py to call tag_multiome_multi_processing with
+        # one_contig_per_process=False (the binned job mode; --multiprocess always forces one contig per process)
+        a = ['--BINNED'] + a
     return a
+
+
+def has_selection(sp):
+    return sp.get('contig') is not None or bool(sp.get('skip')) or sp.get('mode') == 'binned'
+
+
+def canon_binned(jobs):
+    """binned job list, as far as conservation cares: which contigs receive at least one region task, and how many
+    tasks the unplaced bin gets (how a contig is cut into regions is C17, how regions are grouped into jobs is scheduling)"""
+    names = [t[0] for j in jobs for t in j]
+    return [sorted(set(n for n in names if n != '*')), names.count('*')]
+
+
+def vm_crosscheck_multi(groups, run_name='run_C05x', require='Model.C05x'):
+    """fw.vm_crosscheck for several modes in ONE coqc run: groups = [(mode, [(input, extracted output), ..]), ..];
+    returns (ok, mismatches, n_cases, log)"""
+    import re
+    d = os.path.join(fw.BUILD, 'vm', 'C05')
+    os.makedirs(d, exist_ok=True)
+    body = ['From Coq Require Import ZArith List.', 'Import ListNotations.',
+            'From SCMO Require Import Lib.Val %s.' % require, 'Open Scope Z_scope.']
+    for k, (mode, pairs) in enumerate(groups):
+        body.append('Definition cases%d : list (Val * Val) := [' % k)
+        body.append(';\n'.join('  (%s, %s)' % (fw.coq_val(fw.to_val(i)), fw.coq_val(fw.to_val(o))) for i, o in pairs))
+        body.append('].')
+        body.append('Eval vm_compute in (length (mismatches (%s %d) cases%d), length cases%d).' % (run_name, mode, k, k))
+    with open(os.path.join(d, 'cases.v'), 'w') as f:
+        f.write('\n'.join(body) + '\n')
+    rc, out = fw.sh('ulimit -s unlimited 2>/dev/null; timeout 900 coqc -Q %s SCMO cases.v' % fw.COQ, cwd=d, timeout=960)
+    if rc != 0:
+        return False, -1, 0, out
+    res = re.findall(r'=\s*\((\d+)(?:%nat)?,\s*(\d+)(?:%nat)?\)', out)
+    if len(res) != len(groups):
+        return False, -1, 0, out
+    mism = sum(int(a) for a, _ in res)
+    n = sum(int(b) for _, b in res)
+    ok = mism == 0 and all(int(b) == len(pairs) for (_, b), (_, pairs) in zip(res, groups))
+    return ok, mism, n, out
 
 
 def expected_rg(tags):
@@ -462,6 +509,26 @@ class Prop(fw.PropBase):
         '-read_group_format / method / mode) and one library with > 10,000 pooled fragments (periodic ejection of '
         'MoleculeIterator inside the tagger; no command line option lowers check_eject_every) are sampled end to end against '
         'the specification; the large library is not run through the model',
+        'contig selection (-contig / -skip_contig; outside the property text, which speaks of default options): Model/C05x.v is '
+        'hand-written (pair_kept = the skip_contigs test of MoleculeIterator.__iter__, whitelist / cpp_jobs / regions / bp_loop = '
+        'the selection handling and both job constructions of tag_multiome_multi_processing, single_sel = the iterator chain of '
+        'tag_multiome_single_thread) and tied by K only: job lists by calling the real tag_multiome_multi_processing in both job '
+        'modes with get_contigs_with_reads stubbed, a real header-only BAM and generate_tasks intercepted; whole runs end to end',
+        'the one-contig-per-process job loop AS CODED never consults contig_whitelist (C05_sel_jobs_as_coded, '
+        'C05_sel_same_as_coded_refuted); the model has both this loop and the loop with the whitelist test of the suggestion '
+        'fixes/C05-D31.patch, each with its theorems; the harness detects on two probe job lists which of the two the tree has and '
+        'compares against that one (recorded in coverage.contig_selection.one_contig_per_process_variant)',
+        'modelled not verified: binned mode (one_contig_per_process=False) at contig granularity - how a contig is cut into '
+        'regions (blacklisted_binning: C17) and that the region tasks of one contig together write every molecule with a cut '
+        'site exactly once (run_tagging_task ownership gate: C08; site-less molecules are dropped there, C08 finding D11) are '
+        'the hypothesis [tiles] of C05_sel_binned_records_partial; the executable model processes each scheduled contig as a '
+        'whole, binned runs are compared on records of molecules with a cut site (DS tag in the single-process run); the '
+        'command line cannot reach binned mode (--multiprocess forces one contig per process): the end-to-end runs go through '
+        'run_multiome_tagging_cmd with the flag overridden at the call of tag_multiome_multi_processing',
+        "-contig values that are not a reference of the header ('*', unknown names) are outside the hypothesis sc_ok: modelled "
+        '(single process: every unplaced record twice, C05_sel_single_star_refuted / ValueError = Raise 3) but not compared, '
+        'only observed (coverage.contig_selection.out_of_domain_runs_observed_not_compared); -contig MISC_ALT_CONTIGS_SCMO, '
+        '-region_start/-region_end, -blacklist and --cluster are not modelled',
     ]
     ASSUMPTIONS = [
         'no two primary records of the input share (query name, first-read bit) (MatePairIterator is run with '
@@ -470,7 +537,11 @@ class Prop(fw.PropBase):
         '(otherwise verify_pair / Fragment.__init__ raise; modelled as Raise and cross-checked)',
         'every placed record lies on a contig of the header; header contig names are distinct',
         'no read has a homopolymer run >= 18 (CHIC max_NUC_stretch aborts the mate forcing loop); default options '
-        'otherwise (no -head, -contig, -skip_contig, -blacklist, --cluster, --consensus, -max_associated_fragments)',
+        'otherwise (no -head, -blacklist, --cluster, --consensus, -max_associated_fragments); -contig / -skip_contig only in '
+        'the C05_sel_* theorems',
+        'C05_sel_*: -contig, when given, names a reference sequence of the header (sc_ok); mates that the pairing cache can join '
+        '(paired, mate mapped, next reference = own reference) lie on the same contig (coloc: what an aligner writes); header '
+        'contig lengths are positive (binned mode)',
         'secondary/supplementary records are outside the claim (dropped by MatePairIterator, kept by the qflag ReadIterator)',
     ]
 
@@ -744,6 +815,464 @@ class Prop(fw.PropBase):
             return None
         return set(r['id'] for r in res['records'] if not (r['f'] & QCFAIL))
 
+    # ------------------------------------------------------------------ contig selection (-contig / -skip_contig)
+    SEL_OOD_NAMES = ('zz_unknown',)
+
+    def sel_slice_cases(self):
+        """job-list level: header, contigs with reads, -contig, -skip_contig, job mode"""
+        quick = self.tier == 'quick'
+        rng = self.rng
+        cases = []
+        K = 2 if quick else 3
+        names, lens = ['k0', 'k1', 'k2'][:K], [700, 150000, 900][:K]
+        hdr = [[n, l] for n, l in zip(names, lens)]
+        for live in itertools.product((0, 1), repeat=K):
+            for star in (0, 1):
+                cwr = [[n, l] for n, l, v in zip(names, lens, live) if v] + ([['*', 0]] if star else [])
+                for contig in [None] + names:
+                    for r in range(K + 1):
+                        for skip in itertools.combinations(names, r):
+                            for mode in ('cpp', 'binned'):
+                                cases.append({'hdr': hdr, 'cwr': cwr, 'contig': contig, 'skip': list(skip), 'mode': mode,
+                                              'bp_per_job': 200000, 'bp_per_segment': 100000})
+        self.n_exh_sel = len(cases)
+        # corpus: selections that once showed a difference between the job modes (run first)
+        d = os.path.join(fw.VERIF, 'corpus', 'C05')
+        pre = []
+        if os.path.isdir(d):
+            for f in sorted(os.listdir(d)):
+                if f.endswith('.json'):
+                    j = json.load(open(os.path.join(d, f)))
+                    if 'sel_slice' in j:
+                        pre.append(j['sel_slice'])
+        self.n_corpus_sel = len(pre)
+        cases = pre + cases
+        for _ in range(160 if quick else 2500):
+            cl = [[n, min(l, 2 ** 31 - 2)] for n, l in gen_contig_list(rng, maxn=7)]
+            live = [x for x in cl if x[0] != '*']
+            used = set(n for n, _ in cl)
+            extra = [[n, rng.choice([800, 99999, 100000, 4000000])] for n in rng.sample(['e1', 'e2', 'e3', 'chrUn'], rng.randint(0, 2))
+                     if n not in used]
+            hdr = live + extra
+            rng.shuffle(hdr)
+            if not hdr:
+                hdr = [['chr1', 5000]]
+            allnames = [n for n, _ in hdr]
+            r = rng.random()
+            if r < 0.35:
+                contig = None
+            elif r < 0.75 and live:
+                contig = rng.choice(live)[0]
+            elif r < 0.92:
+                contig = rng.choice(allnames)
+            else:
+                contig = rng.choice(['*'] + list(self.SEL_OOD_NAMES))
+            r = rng.random()
+            if r < 0.1:
+                skip = None                       # Python API default: no skip_contigs
+            elif r < 0.35:
+                skip = []
+            else:
+                skip = rng.sample(allnames, rng.randint(1, min(3, len(allnames))))
+                if rng.random() < 0.15:
+                    skip.append(rng.choice(['*', 'zz_unknown']))
+            big = max(l for _, l in hdr)
+            seg = rng.choice([10 ** 6, 50000, 3 * 10 ** 8, 999999999])
+            seg = max(seg, big // 12 + 1)          # keep the number of regions per contig small
+            cases.append({'hdr': hdr, 'cwr': cl, 'contig': contig, 'skip': skip, 'mode': rng.choice(['cpp', 'binned']),
+                          'bp_per_job': rng.choice([10 ** 7, 100000, 1, 5 * 10 ** 8]), 'bp_per_segment': seg,
+                          'fragment_size': rng.choice([0, 500, 1000])})
+        return cases
+
+    @staticmethod
+    def sel_in_domain(names, contig):
+        """-contig, when given, names a reference sequence of the header (C05x sc_ok)"""
+        return contig is None or contig in names
+
+    @staticmethod
+    def enc_sel(names, contig, skip):
+        """(sc, skip) for the model: header contigs by index, '*' = [], names the header does not know = 1000+"""
+        other = {}
+
+        def enc(n):
+            if n == '*':
+                return []
+            if n in names:
+                return [names.index(n)]
+            return [other.setdefault(n, 1000 + len(other))]
+        return ([] if contig is None else [enc(contig)]), [enc(n) for n in (skip or [])], enc
+
+    def enc_sel_slice(self, case, variant):
+        names = [n for n, _ in case['hdr']]
+        sc, skip, enc = self.enc_sel(names, case['contig'], case['skip'])
+        cwr = [[enc(n), l] for n, l in case['cwr']]
+        hdr = [[i, l] for i, (n, l) in enumerate(case['hdr'])]
+        inv = {'*': '*'}
+        for n in set(names) | set(n for n, _ in case['cwr']) | set(case['skip'] or []) | ({case['contig']} if case['contig'] else set()):
+            e = enc(n)
+            inv['*' if e == [] else e[0]] = n
+        return [2 if case['mode'] == 'binned' else variant, sc, skip, cwr, hdr, case['bp_per_job']], inv
+
+    @staticmethod
+    def dec_sel_jobs(v, inv):
+        return [[inv['*' if c == [] else c[0]] for c in j] for j in v]
+
+    @staticmethod
+    def sel_whitelist(case):
+        if case['contig'] is not None:
+            return [case['contig']]
+        sk = set(case['skip'] or [])
+        return [c for c, _ in case['cwr'] if c not in sk]
+
+    def sel_jobs_safety(self, case, jobs):
+        """what BOTH variants of the job construction guarantee (C05_sel_jobs_as_coded / _repaired / _binned), evaluated on
+        the implementation's job list: the unplaced bin exactly once; nothing scheduled twice (contig per process) /
+        only header contigs (binned); every whitelisted contig with reads is scheduled.  returns (key, text) or None"""
+        wl = set(self.sel_whitelist(case))
+        hdrn = [n for n, _ in case['hdr']]
+        reads = [c for c, _ in case['cwr'] if c != '*']
+        flat = [t[0] for j in jobs for t in j]
+        if flat.count('*') != 1:
+            return ('seljobs:unplaced-bin', "the unplaced bin '*' is scheduled %d times" % flat.count('*'))
+        if case['mode'] == 'cpp':
+            cnt = collections.Counter(x for x in flat if x != '*')
+            dup = sorted(c for c, k in cnt.items() if k > 1)
+            if dup:
+                return ('seljobs:duplicate', 'contigs %r are processed more than once' % dup)
+            bad = sorted(c for c in cnt if c not in reads)
+            if bad:
+                return ('seljobs:no-reads', 'contigs %r without reads are scheduled' % bad)
+            miss = sorted(c for c in reads if c in wl and c not in cnt)
+            if miss:
+                return ('seljobs:dropped-contig', 'selected contigs %r (with reads) get no job' % miss)
+        else:
+            sched = set(x for x in flat if x != '*')
+            bad = sorted(c for c in sched if c not in hdrn or c not in wl)
+            if bad:
+                return ('seljobs:unselected-region', 'regions on %r, which the selection excludes, are scheduled' % bad)
+            miss = sorted(c for c in reads if c in wl and c in hdrn and c not in sched)
+            if miss:
+                return ('seljobs:dropped-contig', 'selected contigs %r (with reads) get no region task' % miss)
+        return None
+
+    def sel_e2e_cases(self):
+        """synthetic libraries tagged under a selection: single / --multiprocess / binned"""
+        quick = self.tier == 'quick'
+        rng = self.rng
+        out = []
+
+        def runs_for(c, sels, methods, p_binned):
+            runs = []
+            for sel in sels:
+                for m in methods:
+                    base = {'method': m, 'nr': False, 'contig': sel.get('contig'), 'skip': list(sel.get('skip') or [])}
+                    if sel.get('ood'):
+                        base['ood'] = True
+                    runs.append(dict(base, mode='single'))
+                    runs.append(dict(base, mode='multi', threads=rng.randint(1, 4)))
+                    if not sel.get('ood') and rng.random() < p_binned:
+                        runs.append(dict(base, mode='binned', threads=rng.randint(1, 3)))
+            c['run_specs'] = runs
+            c['runs'] = [spec_args(r) for r in runs]
+            c['sel'] = True
+            return c
+        for i in range(6 if quick else 60):
+            c = gen_case(rng, maxc=6, nfrag=rng.randint(3, 16))
+            names = [n for n, _ in c['contigs']]
+            live = sorted(set(names[r['t']] for r in c['records'] if r['t'] >= 0))
+            sels = [{'contig': rng.choice(live) if live and rng.random() < 0.85 else rng.choice(names)}]
+            k = rng.randint(1, min(2, len(names)))
+            sels.append({'skip': rng.sample(live, min(k, len(live))) if live and rng.random() < 0.8 else rng.sample(names, k)})
+            if rng.random() < 0.35:
+                sels.append({'contig': rng.choice(names), 'skip': rng.sample(names, 1) + (['*'] if rng.random() < 0.3 else [])})
+            if i < (1 if quick else 8):
+                sels.append({'contig': rng.choice(['*', 'zz_unknown']), 'ood': True})
+            methods = [rng.choice(['nla', 'chic'])] + (['qflag'] if rng.random() < (0.4 if quick else 0.6) else [])
+            out.append(runs_for(c, sels, methods, 0.6 if quick else 0.8))
+        # outside the hypothesis coloc: two mates that each claim the other on their own contig but lie on different contigs;
+        # the whole-file iterator pairs them and the skip test keeps or drops the PAIR (model and code must still agree;
+        # the statements are not evaluated on these libraries)
+        for i in range(1 if quick else 12):
+            c = gen_case(rng, maxc=5, nfrag=rng.randint(2, 8))
+            while len(c['contigs']) < 2 or c['name_form'] != 'tags':
+                c = gen_case(rng, maxc=5, nfrag=rng.randint(2, 8))
+            a, b = rng.sample(range(len(c['contigs'])), 2)
+            tg = {'SM': 'LIBA_2', 'BC': 'TTGCATGC', 'RX': 'GAT', 'MI': 'TTGCATGCGAT', 'LY': 'LIBA', 'Fc': 'HXXFC', 'La': '1'}
+            nm = 'NS500:7:HXXFC:1:1101:777:%d' % (7000 + i)
+            pa, pb = rng.randint(0, c['contigs'][a][1] - 30), rng.randint(0, c['contigs'][b][1] - 30)
+            s1, s2 = 'CATG' + rand_seq(rng, 20), rand_seq(rng, 22)
+            c['records'].append({'n': nm, 'f': PAIRED | MREV | R1, 't': a, 'p': pa, 'q': 60, 'c': '24M', 's': s1, 'ql': 'J' * 24,
+                                 'nt': a, 'np': pa + 10, 'tags': dict(tg), 'kind': 'cross_mates'})
+            c['records'].append({'n': nm, 'f': PAIRED | REV | R2, 't': b, 'p': pb, 'q': 60, 'c': '22M', 's': s2, 'ql': 'F' * 22,
+                                 'nt': b, 'np': pb + 10, 'tags': dict(tg), 'kind': 'cross_mates'})
+            c['records'].sort(key=lambda r: (r['t'] if r['t'] >= 0 else 10 ** 9, r['p']))
+            for k, r in enumerate(c['records']):
+                r['tags']['zi'] = k
+            c['malformed'] = 'coloc'
+            names = [n for n, _ in c['contigs']]
+            sels = [{'skip': [names[b]]}, {'skip': [names[a]]}, {'contig': names[a]}]
+            out.append(runs_for(c, sels if not quick else sels[:2], [rng.choice(['nla', 'chic', 'qflag'])], 0.5))
+        lay = layout_cases(2 if quick else 3)
+        if quick:
+            lay = rng.sample(lay, 10)
+        self.n_sel_layout = len(lay)
+        for c in lay:
+            names = [n for n, _ in c['contigs']]
+            allsels = [{'contig': n} for n in names] + [{'skip': [n]} for n in names]
+            sels = [rng.choice(allsels)] if quick else rng.sample(allsels, 2)
+            out.append(runs_for(c, sels, ['nla'], 1.0))
+        return out
+
+    @staticmethod
+    def sel_wanted(case, spec, contig_ignored=False):
+        """records the selection asks for (C05x want_rec): the unplaced bin always; otherwise on the -contig contig (any
+        when absent, or when the job mode ignores it) and not on a -skip_contig one"""
+        names = [n for n, _ in case['contigs']]
+        sk = set(spec.get('skip') or [])
+        ct = None if contig_ignored else spec.get('contig')
+        return [r for r in case['records'] if r['t'] < 0 or ((ct is None or names[r['t']] == ct) and names[r['t']] not in sk)]
+
+    def sel_spec_violations(self, case, spec, res, base=None):
+        """the statements of C05_sel_conserve_single / _multi_as_coded / _multi_repaired / _binned, transcribed to python
+        and evaluated on the implementation's output only.  base: the single-process run with the same selection
+        (tells which records belong to molecules with a cut site: only those are owed by region tasks, C08)"""
+        if spec.get('ood'):
+            return []
+        names = [n for n, _ in case['contigs']]
+        if not self.sel_in_domain(names, spec.get('contig')):
+            return []
+        if spec['mode'] == 'binned' and 'error' in res:
+            # the binned job mode is driven through an overridden keyword of the Python API: a run that cannot be driven is a
+            # broken tie (reported by the comparison with the model), not evidence of a lost record
+            return []
+        ignored = spec['mode'] == 'multi' and self.detect_variant() == 'as-coded'
+        want = self.sel_wanted(case, spec, contig_ignored=ignored)
+        pc = dict(case, records=want)
+        vs = self.spec_violations(pc, spec, res, None)
+        if spec['mode'] == 'binned' and 'error' not in res:
+            vs = [v for v in vs if not v[0].startswith('e2e:missing-records')]
+            if base is not None and 'error' not in base:
+                sited = set(o['id'] for o in base['records'] if o.get('ds'))
+                got = set(o['id'] for o in res['records'])
+                miss = [r for r in want if not (r['f'] & (SEC | SUPP)) and r['tags']['zi'] in sited and r['tags']['zi'] not in got]
+                if miss:
+                    vs.append(('e2e:missing-records:binned', '%d selected record(s) of molecules with a cut site are not in the '
+                               'output of the binned run: %r' % (len(miss), sorted(payload(r) for r in miss)[:3])))
+        sel = ' '.join((['-contig', spec['contig']] if spec.get('contig') is not None else [])
+                       + (['-skip_contig', ','.join(spec['skip'])] if spec.get('skip') else []))
+        return [('sel:' + k, 'under %s: %s' % (sel or 'no selection', t)) for k, t in vs]
+
+    def violations(self, case, spec, res, vids, base=None):
+        if has_selection(spec):
+            return self.sel_spec_violations(case, spec, res, base)
+        return self.spec_violations(case, spec, res, vids)
+
+    def detect_variant(self, slices=None, outs=None):
+        """which one-contig-per-process job loop this tree has: 'as-coded' (the selection is not consulted) or 'repaired'
+        (whitelist test, fixes/C05-D31.patch).  Decided on job lists where the two differ."""
+        if getattr(self, 'sel_variant', None):
+            return self.sel_variant
+        probe = [{'hdr': [['k0', 700], ['k1', 150000]], 'cwr': [['k0', 700], ['k1', 150000], ['*', 0]], 'contig': 'k0', 'skip': [],
+                  'mode': 'cpp', 'bp_per_job': 10 ** 7, 'bp_per_segment': 10 ** 6},
+                 {'hdr': [['k0', 700], ['k1', 150000]], 'cwr': [['k0', 700], ['k1', 150000]], 'contig': None, 'skip': ['k1'],
+                  'mode': 'cpp', 'bp_per_job': 10 ** 7, 'bp_per_segment': 10 ** 6}]
+        r = fw.run_impl('impl_c05.py', {'sel': probe})['sel']
+        self.sel_variant = 'as-coded'
+        if 'outs' in r and all('jobs' in o for o in r['outs']):
+            flat = [sorted(t[0] for j in o['jobs'] for t in j) for o in r['outs']]
+            if flat == [['*', 'k0'], ['*', 'k0']]:
+                self.sel_variant = 'repaired'
+        return self.sel_variant
+
+    def correspondence_sel(self, dis, spec_bad, sel_cases, sel_res):
+        """K for the contig-selection part of the model (Model/C05x.v).  Appends to dis / spec_bad; returns the coverage dict
+        and the (mode, input, output) triples available for the vm_compute cross-check"""
+        cov, vm = {}, {10: [], 11: []}
+        variant = self.detect_variant()
+        vnum = 1 if variant == 'repaired' else 0
+        cov['one_contig_per_process_variant'] = variant + (
+            ' (job loop ignores contig_whitelist: -contig has no effect under --multiprocess; Props C05_sel_same_as_coded_refuted)'
+            if variant == 'as-coded' else ' (job loop tests contig_whitelist)')
+        # ---- job lists
+        sl = self.sel_slices
+        so = self.sel_sres
+        if 'fatal' in so:
+            raise fw.Broken('translator', 'tag_multiome_multi_processing could not be driven with a contig selection: ' + so['fatal'])
+        outs = so['outs']
+        if outs and all('error' in o for o in outs):
+            raise fw.Broken('translator', 'tag_multiome_multi_processing could not be driven with a contig selection: '
+                            + outs[0]['error'])
+        hist_mode, hist_contig, hist_skip = collections.Counter(), collections.Counter(), collections.Counter()
+        n_tr = n_dist = n_ood = 0
+        self.sel_slice_bad = []
+        menc = [self.enc_sel_slice(c, vnum) for c in sl]
+        mj = fw.run_model('C05', 10, [e for e, _ in menc]) if self.model_ok else [None] * len(sl)
+        mother = fw.run_model('C05', 10, [self.enc_sel_slice(c, 1 - vnum)[0] for c in sl]) if self.model_ok else [None] * len(sl)
+        for c, o, (e, inv), m, m2 in zip(sl, outs, menc, mj, mother):
+            names = [n for n, _ in c['hdr']]
+            reads = [n for n, _ in c['cwr'] if n != '*']
+            hist_mode[c['mode']] += 1
+            hist_contig['absent' if c['contig'] is None else 'with-reads' if c['contig'] in reads else
+                        'header-no-reads' if c['contig'] in names else 'out-of-domain'] += 1
+            hist_skip['None' if c['skip'] is None else str(len(c['skip']))] += 1
+            if not self.sel_in_domain(names, c['contig']):
+                n_ood += 1        # -contig '*' / a name the header does not know: outside sc_ok, observed only
+                continue
+            if 'error' in o:
+                dis.append({'level': 'sel-slice', 'input': c, 'impl_error': o['error']})
+                continue
+            k = self.sel_jobs_safety(c, o['jobs'])
+            if k:
+                self.sel_slice_bad.append((c, k, o['jobs']))
+            if m is None:
+                continue
+            n_tr += 1
+            mjobs = self.dec_sel_jobs(m, inv)
+            if c['mode'] == 'cpp':
+                a, b = canon_jobs([[t[0] for t in j] for j in o['jobs']]), canon_jobs(mjobs)
+                if canon_jobs(self.dec_sel_jobs(m2, inv)) != b:
+                    n_dist += 1
+            else:
+                a, b = canon_binned(o['jobs']), canon_binned([[[x] for x in j] for j in mjobs])
+            if a != b:
+                dis.append({'level': 'sel-slice', 'input': c, 'impl': [[t[0] for t in j] for j in o['jobs']], 'model': mjobs,
+                            'model_variant': variant})
+            elif len(vm[10]) < 400:
+                vm[10].append((e, m))
+        if self.sel_slice_bad:
+            c, k, jobs = min(self.sel_slice_bad, key=lambda x: len(json.dumps(x[0])))
+            spec_bad.append({'key': k[0], 'what': k[1], 'sel_slice': c})
+        # ---- end to end
+        n_runs = n_tr2 = n_cut = n_d31 = n_sited_only = 0
+        by_mode = collections.Counter()
+        ood_obs = collections.Counter()
+        minputs, mmeta = [], []
+        nontrivial = set()
+        for ci, (c, r) in enumerate(zip(sel_cases, sel_res)):
+            if 'fatal' in r:
+                dis.append({'level': 'sel-e2e', 'case': ci, 'impl_error': r['fatal']})
+                continue
+            names = [n for n, _ in c['contigs']]
+            singles = {}
+            for spec, rr in zip(c['run_specs'], r['runs']):
+                if spec['mode'] == 'single':
+                    singles[(spec['method'], spec.get('contig'), tuple(spec.get('skip') or []))] = rr
+            for si, (spec, rr) in enumerate(zip(c['run_specs'], r['runs'])):
+                n_runs += 1
+                by_mode[spec['mode']] += 1
+                base = singles.get((spec['method'], spec.get('contig'), tuple(spec.get('skip') or [])))
+                if spec.get('ood') or not self.sel_in_domain(names, spec.get('contig')):
+                    if 'error' in rr:
+                        ood_obs['%s -contig %s: %s' % (spec['mode'], spec.get('contig'), rr['error'].split(':')[0])] += 1
+                    else:
+                        ids = [o['id'] for o in rr['records']]
+                        ood_obs['%s -contig %s: %s' % (spec['mode'], spec.get('contig'),
+                                                        'records written twice' if len(ids) != len(set(ids)) else
+                                                        'whole file' if len(ids) >= len([x for x in c['records'] if not x['f'] & (SEC | SUPP)])
+                                                        else 'subset')] += 1
+                    continue
+                if not c.get('malformed'):
+                    for k, t in self.sel_spec_violations(c, spec, rr, base):
+                        spec_bad.append({'key': k, 'what': t, 'sel_case': ci, 'run': si})
+                want = self.sel_wanted(c, spec)
+                prim = [x for x in c['records'] if not x['f'] & (SEC | SUPP)]
+                if len(want) < len(c['records']) and any(x['t'] >= 0 for x in want):
+                    n_cut += 1
+                    nontrivial.add(fw.canon_hash([c['contigs'], spec.get('contig'), spec.get('skip'), spec['mode'], spec['method'],
+                                                  [[x['n'], x['f'], x['t'], x['p']] for x in c['records']]]))
+                if spec['mode'] == 'multi' and spec.get('contig') is not None and 'error' not in rr and base and 'error' not in base:
+                    if collections.Counter(o['id'] for o in rr['records']) != collections.Counter(o['id'] for o in base['records']):
+                        n_d31 += 1
+                minp, rginv = self.enc_case(c, spec, None)
+                sc, skip, _ = self.enc_sel(names, spec.get('contig'), spec.get('skip'))
+                how = {'single': 0, 'multi': 1 + vnum, 'binned': 3}[spec['mode']]
+                minputs.append(minp + [[how, sc, skip, 10 ** 7]])
+                mmeta.append((ci, spec, rr, rginv, base))
+        pre_hits = specb_true = None
+        if self.model_ok and minputs:
+            mout = fw.run_model('C05', 11, minputs)
+            pre = fw.run_model('C05', 13, [[m[4][1], m[1], m[2]] for m in minputs])
+            pre_hits = sum(1 for p in pre if p == 1) / len(pre)
+            sb_in, sb_meta = [], []
+            for (ci, spec, rr, rginv, base), mi, mo, p in zip(mmeta, minputs, mout, pre):
+                n_tr2 += 1
+                if mo[0] == 0:
+                    want = {1: 'Second read is unpaired', 2: 'Supply first R1 then R2', 3: 'invalid contig'}[mo[1]]
+                    if 'error' not in rr or want not in rr['error']:
+                        dis.append({'level': 'sel-e2e', 'case': ci, 'run': spec, 'model': 'Raise %d (%s)' % (mo[1], want),
+                                    'impl': rr.get('error', '%d records' % len(rr.get('records', [])))})
+                    continue
+                if 'error' in rr:
+                    dis.append({'level': 'sel-e2e', 'case': ci, 'run': spec, 'model': '%d records' % len(mo[2]),
+                                'impl_error': rr['error'], 'where': rr.get('where')})
+                    continue
+                if spec['mode'] == 'binned':
+                    # region tasks owe only the molecules that have a cut site (C08); contig selection is what is compared
+                    a = collections.Counter(row[0] for row in mo[2])
+                    b = collections.Counter(o['id'] for o in rr['records'])
+                    sited = set(o['id'] for o in base['records'] if o.get('ds')) if base and 'error' not in base else set()
+                    only_impl = sorted((b - a).elements())
+                    only_model = sorted(x for x in (a - b).elements() if x in sited)
+                    if (a - b):
+                        n_sited_only += 1
+                    if only_impl or only_model:
+                        dis.append({'level': 'sel-e2e', 'case': ci, 'run': spec, 'only_model_ids_with_site': only_model[:6],
+                                    'only_impl_ids': only_impl[:6], 'n_model': sum(a.values()), 'n_impl': sum(b.values())})
+                    continue
+                mrows = sorted([row[0], row[1], row[2], rginv[row[3]]] for row in mo[2])
+                irows = sorted([o['id'], 1 if o['f'] & R1 else 0, 1 if o['f'] & R2 else 0, o['rg']] for o in rr['records'])
+                mrg = sorted(set(rginv[g] for g in mo[1]))
+                irg = sorted(set(rr['rg_ids']))
+                if mrows != irows:
+                    a, b = collections.Counter(map(tuple, mrows)), collections.Counter(map(tuple, irows))
+                    dis.append({'level': 'sel-e2e', 'case': ci, 'run': spec, 'model_variant': variant,
+                                'only_model': sorted((a - b).elements())[:4], 'only_impl': sorted((b - a).elements())[:4],
+                                'n_model': len(mrows), 'n_impl': len(irows)})
+                elif mrg != irg:
+                    dis.append({'level': 'sel-e2e', 'case': ci, 'run': spec, 'header_rg_model': mrg, 'header_rg_impl': irg})
+                else:
+                    if len(mi[2]) <= 24 and len(vm[11]) < 300:
+                        vm[11].append((mi, mo))
+                    if p == 1:
+                        # the boolean specification of the theorems (Model specb_sel) on the IMPLEMENTATION's rows
+                        rg_id = {v: k for k, v in rginv.items()}
+                        if all(o['rg'] in rg_id for o in rr['records']) and all(g in rg_id for g in rr['rg_ids']):
+                            ignored = spec['mode'] == 'multi' and variant == 'as-coded'
+                            sb_in.append([[[] if ignored else mi[4][1], mi[4][2], mi[0][1]], mi[2], [rg_id[g] for g in rr['rg_ids']],
+                                          [[o['id'], 1 if o['f'] & R1 else 0, 1 if o['f'] & R2 else 0, rg_id[o['rg']]] for o in rr['records']]])
+                            sb_meta.append((ci, spec))
+            if sb_in:
+                sb = fw.run_model('C05', 12, sb_in)
+                specb_true = sum(1 for x in sb if x == 1)
+                for x, (ci, spec) in zip(sb, sb_meta):
+                    if x != 1:
+                        spec_bad.append({'key': 'sel:specb', 'what': 'specb_sel (the statement of C05_sel_conserve_*) is false on the '
+                                         'output of %s' % ' '.join(spec_args(spec)), 'sel_case': ci,
+                                         'run': sel_cases[ci]['run_specs'].index(spec)})
+        cov.update({
+            'job_list_cases': len(sl), 'job_list_exhaustive': self.n_exh_sel, 'job_list_corpus': getattr(self, 'n_corpus_sel', 0),
+            'job_list_exhaustive_scope': 'every subset of %d header contigs (small, LARGE%s) with reads x unplaced reads yes/no x -contig absent / each '
+                                         'contig x every -skip_contig subset x {one contig per process, binned}'
+                                         % ((2, '') if self.tier == 'quick' else (3, ', small')),
+            'job_list_cases_where_variants_differ': n_dist, 'job_list_out_of_domain_not_compared': n_ood,
+            'hist_job_mode': dict(hist_mode), 'hist_contig_option': dict(hist_contig), 'hist_skip_option_size': dict(sorted(hist_skip.items())),
+            'job_list_traces': n_tr,
+            'libraries': len(sel_cases), 'layout_libraries': getattr(self, 'n_sel_layout', 0),
+            'libraries_outside_coloc_hypothesis': sum(1 for c in sel_cases if c.get('malformed')),
+            'tagger_runs': n_runs, 'tagger_runs_by_mode': dict(by_mode),
+            'runs_where_the_selection_removes_records': n_cut,
+            'multiprocess_runs_with_contig_option_that_differ_from_single_process': n_d31,
+            'binned_runs_missing_only_siteless_records': n_sited_only,
+            'out_of_domain_runs_observed_not_compared': dict(ood_obs),
+            'pre_sel_hit_rate': None if pre_hits is None else round(pre_hits, 4),
+            'specb_sel_true_on_impl_outputs': specb_true,
+            'e2e_traces': n_tr2,
+        })
+        self.sel_nontrivial = len(nontrivial) + len(set(json.dumps(c, sort_keys=True) for c in sl if (c['contig'] is not None or c['skip'])))
+        self.sel_evals = len(sl) + n_runs
+        self.sel_traces = n_tr + n_tr2
+        return cov, vm
+
     # ------------------------------------------------------------------ K
     def correspondence(self):
         t0 = time.time()
@@ -754,11 +1283,21 @@ class Prop(fw.PropBase):
                 c['runs'] = [spec_args(r) for r in c['run_specs']]
         slices = csl + self.slice_cases()
         cases = ce2e + self.e2e_cases()
+        # contig selection (-contig / -skip_contig): generated after the default-option inputs (their stream is unchanged)
+        self.sel_slices = self.sel_slice_cases()
+        sel_cases = self.sel_e2e_cases()
+        self.sel_cases = sel_cases
         self.slices, self.cases = slices, cases
-        sres = fw.run_impl('impl_c05.py', {'slice': slices})['slice']
+        with ThreadPoolExecutor(max_workers=1) as ex:      # the job-list runs overlap with the tagger runs
+            fut = ex.submit(fw.run_impl, 'impl_c05.py', {'slice': slices, 'sel': self.sel_slices})
+            allres = self.run_impl_cases(cases + sel_cases)
+            both = fut.result()
+        sres = both['slice']
         self.sres = sres
-        cres = self.run_impl_cases(cases)
+        self.sel_sres = both['sel']
+        cres = allres[:len(cases)]
         self.cres = cres
+        self.sel_cres = allres[len(cases):]
         dis = []
         # ---- slice
         if 'fatal' in sres:
@@ -828,6 +1367,7 @@ class Prop(fw.PropBase):
             if len(set(t for t, _ in [(x['t'], 0) for x in c['records']])) > 1 and len(c['records']) >= 4:
                 nontrivial.add(fw.canon_hash([c['contigs'], [[x['n'], x['f'], x['t'], x['p']] for x in c['records']]]))
         self.spec_bad = spec_bad
+        sel_cov, sel_vm = self.correspondence_sel(dis, spec_bad, sel_cases, self.sel_cres)
         pre_hits = None
         if self.model_ok and minputs:
             mout = fw.run_model('C05', 0, minputs)
@@ -859,8 +1399,16 @@ class Prop(fw.PropBase):
                     dis.append({'level': 'e2e', 'case': ci, 'run': spec, 'header_rg_model': mrg, 'header_rg_impl': irg})
         n_inv = sum(v for k, v in hist_kind.items() if k.endswith('_qcfail') or k in ('invalid_motif', 'invalid_orient', 'qcfail', 'half', 'unmapped_pair', 'unmapped_single', 'orphan_unmapped'))
         self.cov.update({
-            'evaluations': len(slices) + n_runs,
-            'distinct_nontrivial': len(set(fw.canon_hash(s) for s in slices if len(s) >= 2)) + len(nontrivial),
+            'evaluations': len(slices) + n_runs + self.sel_evals,
+            'evaluations_default_options': len(slices) + n_runs,
+            'evaluations_contig_selection': self.sel_evals,
+            'distinct_nontrivial': len(set(fw.canon_hash(s) for s in slices if len(s) >= 2)) + len(nontrivial) + self.sel_nontrivial,
+            'contig_selection': sel_cov,
+            'rule_contig_selection': 'job lists: (header, contigs with reads, -contig, -skip_contig, job mode) through the real '
+                    'tag_multiome_multi_processing (get_contigs_with_reads stubbed, generate_tasks intercepted, real header BAM); '
+                    'non-trivial = a -contig or a non-empty -skip_contig is given, distinct by content. end-to-end: synthetic BAM x '
+                    'selection x (single, --multiprocess, binned via one_contig_per_process=False); non-trivial = the selection '
+                    'removes at least one record and keeps at least one placed record, distinct by (library, selection, mode, method)',
             'rule': 'slice: contig lists (exhaustive small/LARGE/* patterns up to length %d + random lists up to 12 contigs); non-trivial = '
                     'at least 2 entries, distinct by content. end-to-end: synthetic BAM libraries x (nla, chic, qflag) x (single, '
                     '--multiprocess with -tagthreads 1..4) + --no_rejects runs; non-trivial = records on >= 2 different contigs/bins '
@@ -881,7 +1429,7 @@ class Prop(fw.PropBase):
             'read_groups_per_library_hist': dict(sorted(collections.Counter(
                 len(set(rec_rg(x) for x in c['records'])) for c in cases if not c.get('large')).items())),
             'precondition_hit_rate': None if pre_hits is None else round(pre_hits, 4),
-            'traces_validated_against_impl': n_traces,
+            'traces_validated_against_impl': n_traces + self.sel_traces,
             'spec_violations_on_impl': len(spec_bad), 'disagreements': len(dis),
             'exhaustive': False,
             'exhaustive_scope': 'slice: all small/LARGE/* patterns up to length %d; end-to-end: all %d layouts of 1..%d contigs over '
@@ -897,16 +1445,20 @@ class Prop(fw.PropBase):
         })
         if self.model_ok:
             # vm_compute cross-check of the extracted binary
-            idx = self.rng.sample(range(len(slices)), 60)
+            idx = self.rng.sample(range(len(slices)), 35)
             encs = [self.enc_slice(slices[i])[0] for i in idx]
             outs = fw.run_model('C05', 3, encs)
-            ok1, nm1, log1 = fw.vm_crosscheck('C05', 3, list(zip(encs, outs)))
             small = [i for i, m in enumerate(minputs) if len(m[2]) <= 24][:400]
-            idx2 = self.rng.sample(small, min(40, len(small)))
-            ok2, nm2, log2 = fw.vm_crosscheck('C05', 0, [(minputs[i], mout[i]) for i in idx2])
-            self.cov['vm_compute_crosscheck'] = {'cases': len(idx) + len(idx2), 'mismatches': max(nm1, 0) + max(nm2, 0)}
-            if not (ok1 and ok2):
-                raise fw.Broken('extraction', 'vm_compute and extracted model disagree: ' + (log1 if not ok1 else log2)[-800:])
+            idx2 = self.rng.sample(small, min(25, len(small)))
+            g10 = self.rng.sample(sel_vm[10], min(25, len(sel_vm[10])))
+            g11 = self.rng.sample(sel_vm[11], min(15, len(sel_vm[11])))
+            groups = [(3, list(zip(encs, outs))), (0, [(minputs[i], mout[i]) for i in idx2]), (10, g10), (11, g11)]
+            groups = [g for g in groups if g[1]]
+            ok, nm, ncases, log = vm_crosscheck_multi(groups)
+            self.cov['vm_compute_crosscheck'] = {'cases': ncases, 'mismatches': max(nm, 0),
+                                                 'by_mode': {str(m): len(pp) for m, pp in groups}}
+            if not ok:
+                raise fw.Broken('extraction', 'vm_compute and extracted model disagree: ' + log[-800:])
         if dis:
             self.dis = dis
             hint = ''
@@ -945,7 +1497,11 @@ class Prop(fw.PropBase):
         """greedy removal of whole fragments (by query name) and of empty contigs while the same violation persists"""
         def run(c):
             c2 = dict(c)
-            runs = [{'method': spec['method'], 'mode': 'single', 'nr': False}] + ([spec] if (spec['nr'] or spec['mode'] != 'single') else [])
+            runs = [{'method': spec['method'], 'mode': 'single', 'nr': False}]
+            if has_selection(spec) and spec['mode'] != 'single':
+                runs.append(dict(spec, mode='single'))      # the same selection in a single process (site oracle for binned)
+            if spec['nr'] or spec['mode'] != 'single' or has_selection(spec):
+                runs.append(spec)
             c2['run_specs'] = runs
             c2['runs'] = [spec_args(r) for r in runs]
             r = self.run_impl_cases([c2], workers=1)[0]
@@ -954,7 +1510,8 @@ class Prop(fw.PropBase):
             vids = self.valid_from_default(r['runs'][0]) if spec['nr'] else None
             if spec['nr'] and vids is None:
                 return None
-            v = [x for x in self.spec_violations(c2, spec, r['runs'][-1], vids) if x[0] == key]
+            base = r['runs'][1] if len(runs) == 3 else None
+            v = [x for x in self.violations(c2, spec, r['runs'][-1], vids, base) if x[0] == key]
             return (v[0], r['runs'][-1]) if v else None
         cur = {k: case[k] for k in ('contigs', 'records', 'rg_header', 'stale') if k in case}
         best = run(cur)
@@ -1026,13 +1583,41 @@ class Prop(fw.PropBase):
                 self.witnesses.append({'key': key, 'what': 'one_contig_per_process job list for contigs-with-reads %r: %s' % (cl, k[1]),
                                        'input': cl, 'impl': o.get('jobs', o.get('error')),
                                        'expected': "each of '*' and the listed contigs in exactly one job"})
+        # contig selection: job lists (the safety conditions both variants of the job loop guarantee)
+        self.detect_variant()
+        if not hasattr(self, 'sel_sres'):
+            self.sel_slices = self.sel_slice_cases()
+            self.sel_sres = fw.run_impl('impl_c05.py', {'sel': self.sel_slices})['sel']
+            self.sel_slice_bad = []
+            for c, o in zip(self.sel_slices, self.sel_sres.get('outs', [])):
+                if 'jobs' in o and self.sel_in_domain([n for n, _ in c['hdr']], c['contig']):
+                    k = self.sel_jobs_safety(c, o['jobs'])
+                    if k:
+                        self.sel_slice_bad.append((c, k, o['jobs']))
+        worst = {}
+        for c, k, jobs in getattr(self, 'sel_slice_bad', []):
+            if k[0] not in worst or len(json.dumps(c)) < len(json.dumps(worst[k[0]][0])):
+                worst[k[0]] = (c, k, jobs)
+        for key, (c, k, jobs) in sorted(worst.items()):
+            try:
+                c, k, jobs = self.shrink_sel_slice(c, k, jobs)
+            except Exception as e:
+                self.notes.append('shrinking failed: %r' % (e,))
+            self.witnesses.append({'key': key, 'what': 'tag_multiome_multi_processing(one_contig_per_process=%s) with -contig %r, '
+                                   '-skip_contig %r, contigs with reads %r: %s' % (c['mode'] == 'cpp', c['contig'], c['skip'], c['cwr'], k[1]),
+                                   'input': c, 'impl': [[t[0] for t in j] for j in jobs],
+                                   'expected': "the unplaced bin once; every selected contig with reads scheduled, none twice; "
+                                               "binned: no region on an unselected contig"})
         # end to end: the specification on the implementation's output
         seen = set()
-        for b in sorted(getattr(self, 'spec_bad', []), key=lambda b: len(self.cases[b['case']]['records'])):
+
+        def case_of(b):
+            return self.sel_cases[b['sel_case']] if 'sel_case' in b else self.cases[b['case']]
+        for b in sorted([b for b in getattr(self, 'spec_bad', []) if 'sel_slice' not in b], key=lambda b: len(case_of(b)['records'])):
             if b['key'] in seen or len(seen) >= 4:
                 continue
             seen.add(b['key'])
-            c = self.cases[b['case']]
+            c = case_of(b)
             if 'retag' in b:      # a history of two tagger runs: reported with the whole library
                 j, sp2 = b['retag']
                 self.witnesses.append({'key': b['key'], 'what': b['what'], 'history': [c['runs'][j], spec_args(sp2)], 'run2': sp2,
@@ -1053,7 +1638,39 @@ class Prop(fw.PropBase):
                                    'history': ('the input file was regenerated in place; the index of its earlier version (records '
                                                'input.stale) is still next to it, older than the BAM') if 'stale' in small else None,
                                    'impl': impl,
-                                   'expected': 'every primary input record exactly once, unchanged; sorted, indexed, RG declared'})
+                                   'expected': ('exactly the records the selection asks for (unplaced bin + selected contigs), each once, '
+                                                'unchanged; sorted, indexed, RG declared') if has_selection(spec) else
+                                               'every primary input record exactly once, unchanged; sorted, indexed, RG declared'})
+
+    def shrink_sel_slice(self, c, k, jobs):
+        def bad(x):
+            o = fw.run_impl('impl_c05.py', {'sel': [x]})['sel']
+            if 'fatal' in o or 'jobs' not in o['outs'][0]:
+                return None
+            w = self.sel_jobs_safety(x, o['outs'][0]['jobs'])
+            return (w, o['outs'][0]['jobs']) if w and w[0] == k[0] else None
+        cur = dict(c)
+        changed, budget = True, 40
+        while changed and budget > 0:
+            changed = False
+            cands = []
+            for i in range(len(cur['cwr'])):
+                cands.append(dict(cur, cwr=cur['cwr'][:i] + cur['cwr'][i + 1:]))
+            for i in range(len(cur['hdr'])):
+                if len(cur['hdr']) > 1 and cur['hdr'][i][0] != cur['contig']:
+                    n = cur['hdr'][i][0]
+                    cands.append(dict(cur, hdr=cur['hdr'][:i] + cur['hdr'][i + 1:], cwr=[x for x in cur['cwr'] if x[0] != n]))
+            for i in range(len(cur['skip'] or [])):
+                cands.append(dict(cur, skip=cur['skip'][:i] + cur['skip'][i + 1:]))
+            for t in cands:
+                budget -= 1
+                w = bad(t)
+                if w:
+                    cur, (k, jobs), changed = t, w, True
+                    break
+                if budget <= 0:
+                    break
+        return cur, k, jobs
 
     def replay(self, data):
         w = data.get('witness') or {}
@@ -1063,6 +1680,14 @@ class Prop(fw.PropBase):
             print('job list on the current tree:', json.dumps(o.get('outs', o)))
             if 'outs' in o and 'jobs' in o['outs'][0]:
                 k = self.jobs_spec(w['input'], o['outs'][0]['jobs'])
+                print('VIOLATES' if k else 'ok', k or '')
+                return 1 if k else 0
+            return 1
+        if w.get('key', '').startswith('seljobs:'):
+            o = fw.run_impl('impl_c05.py', {'sel': [w['input']]})['sel']
+            print('job list on the current tree:', json.dumps(o.get('outs', o))[:2000])
+            if 'outs' in o and 'jobs' in o['outs'][0]:
+                k = self.sel_jobs_safety(w['input'], o['outs'][0]['jobs'])
                 print('VIOLATES' if k else 'ok', k or '')
                 return 1 if k else 0
             return 1
@@ -1076,12 +1701,13 @@ class Prop(fw.PropBase):
             return 1 if v else 0
         if w.get('input') and w.get('run'):
             c, spec = w['input'], w['run']
-            runs = [{'method': spec['method'], 'mode': 'single', 'nr': False}, spec]
+            self.detect_variant()
+            runs = [{'method': spec['method'], 'mode': 'single', 'nr': False}, dict(spec, mode='single'), spec]
             c['run_specs'] = runs
             c['runs'] = [spec_args(r) for r in runs]
             r = self.run_impl_cases([c], workers=1)[0]
             vids = self.valid_from_default(r['runs'][0]) if spec['nr'] else None
-            v = self.spec_violations(c, spec, r['runs'][1], vids)
+            v = self.violations(c, spec, r['runs'][2], vids, r['runs'][1])
             print('VIOLATES' if v else 'ok', v)
             return 1 if v else 0
         return self.run()
